@@ -373,8 +373,9 @@ def run_one(seed, dec):
     if rc.violation is None:
         try:
             msgs = [r.msg for r in rc.tap.records]
-            O.account(msgs, rc.model, lenient=True)
-            O.check_forest(msgs, rc.model, order_free=False, lenient=True, fields=False)
+            O.account(msgs, rc.model, lenient=True, ends=False)
+            O.check_forest(msgs, rc.model, order_free=False, lenient=True, fields=False, status=False,
+                           require_complete=False)
         except Violation as v:
             rc.fail_v(v)
     prog = {"world": "gen", "actors": [[]], "types": {}}
